@@ -1213,13 +1213,15 @@ fn sgr_color<'a>(mut cmds: impl Iterator<Item = &'a [u8]>, colon: bool) -> Optio
             // When separated by semicolons it has exactly three components,
             // following parameters belong to the next attribute.
             if !colon {
-                let r = number_decode(cmds.next()?)?;
-                let g = number_decode(cmds.next()?)?;
-                let b = number_decode(cmds.next()?)?;
+                // all three components belong to the color even if some of them
+                // are not valid, otherwise they would be interpreted as attributes
+                let r = cmds.next().and_then(number_decode);
+                let g = cmds.next().and_then(number_decode);
+                let b = cmds.next().and_then(number_decode);
                 return Some(RGBA::new(
-                    u8::try_from(r).ok()?,
-                    u8::try_from(g).ok()?,
-                    u8::try_from(b).ok()?,
+                    u8::try_from(r?).ok()?,
+                    u8::try_from(g?).ok()?,
+                    u8::try_from(b?).ok()?,
                     255,
                 ));
             }
